@@ -21,6 +21,12 @@ judged by linear certificates against an independent iterative Kosaraju (every e
 iff same class; no edge from an earlier to a later component; condensed edge set), and a history mode (one node list /
 adjacency dict / neighbour function / edge list object edited in place between calls, every call twice, last answers
 recomputed in a fresh process).
+
+Round 3 (checks/C14_round3.py, checks/present3.py): presentation diversity - the small-scope and seeded digraphs once more,
+each through a presentation drawn per instance (node labels None / falsy / tuples / pairs whose first entry is a node / mixed
+types / equal-but-differently-typed spellings; outside neighbours None / () / pairs (node, tag) / look-alikes placed anywhere
+in a neighbour list; one-shot and view containers, the callback's persistent list; *_edges through the default call), plus
+the frame clauses 'callback-owned and caller-owned data unchanged' and 'same answer when the call is repeated'.
 """
 from __future__ import annotations
 
@@ -32,6 +38,7 @@ from vf.core import Ctx, use_repo
 from vf.pool import pmap
 from oracles import digraph as D
 from checks import C14_round2 as R2
+from checks import C14_round3 as R3
 
 LEVEL = "exploration"
 SCHEMES = ("int", "intneg", "str", "tuple", "mixed", "frozenset")
@@ -641,7 +648,7 @@ def work_R(args):
 
 
 WORKERS = {"S1": work_S1, "S2": work_S2, "S3": work_S3, "S4": work_S4, "R": work_R, "L": R2.work_ladder,
-           "H": R2.work_history}
+           "H": R2.work_history, "P": R3.work_present}
 
 
 def work(args):
@@ -705,7 +712,9 @@ def run(ctx: Ctx):
     hdeep = [("H", [h]) for h in hspecs if h["size"] != "small"]
     hsmall = [h for h in hspecs if h["size"] == "small"]
     hchunks = [("H", hsmall[i:i + 50]) for i in range(0, len(hsmall), 50)]
-    items = lchunks[:nbig] + hdeep + items + lchunks[nbig:] + hchunks
+    # round 3: presentation diversity (checks/C14_round3.py)
+    pchunks, pplan, _nenum = R3.specs(q, seed)
+    items = lchunks[:nbig] + hdeep + items + lchunks[nbig:] + hchunks + pchunks
     results = pmap(work, items, chunksize=1)
     tot = Counter()
     keys = set()
@@ -714,6 +723,7 @@ def run(ctx: Ctx):
     samples = []
     sampled = set()
     r2 = Counter()
+    r3 = Counter()
     lasts = []
     for it, r in zip(items, results):
         for k in ("evals", "cases", "nontrivial", "with_out", "with_dup", "cyclic"):
@@ -726,6 +736,7 @@ def run(ctx: Ctx):
                 r2[k] = max(r2[k], v)
             else:
                 r2[k] += v
+        r3.update(r.get("r3", {}))
         lasts += r.get("lasts", [])
         kind = (it[0], it[1] if it[0] not in ("L", "H") else None)
         if kind not in sampled and r["samples"]:
@@ -772,6 +783,32 @@ def run(ctx: Ctx):
                            "deep": "path of 580..990 nodes extended in place across 600 / 1000 nodes, closed to a cycle, "
                                    "opened again"})
     ctx.notes["round2"] = dict(r2)
+    pick = lambda pre: {k[len(pre):]: v for k, v in r3.items() if k.startswith(pre)}  # noqa: E731
+    ctx.scope("round 3 presentation diversity: the digraphs of the small scope and of the seeded families once more, each "
+              "through a presentation drawn per instance (checks/C14_round3.py, checks/present3.py)",
+              cases=r3["cases"],
+              structural_generators={"enumerated": "0..3 nodes, every assignment of neighbour lists of length <= 2 over the "
+                                                   "nodes + one outside slot" + ("" if q else " (4 presentations each)"),
+                                     "seeded families (with duplicates / outside neighbours / shuffles as in round 1)": pplan},
+              transformers={"node labels": pick("labels:"),
+                            "equal-but-differently-typed spellings of a node in neighbour lists (1 / 1.0 / True)":
+                                r3["with-equal-but-differently-typed-spellings"],
+                            "outside neighbours drawn (by kind of value)": pick("outside:"),
+                            "nodes as": pick("nodes-as:"), "neighbours as": pick("neighbours-as:"),
+                            "neighbour function on non-nodes": pick("neighbour-function:"),
+                            "*_edges calls without a backend argument": pick("edges-calls:")},
+              cases_with_outside_neighbours=r3["cases-with-outside-neighbours"],
+              cases_with_a_node_labelled_None=r3["cases-with-a-node-labelled-None"],
+              cases_with_a_pair_node_whose_first_entry_is_a_node=r3["cases-with-a-pair-node-whose-first-entry-is-a-node"],
+              calls="strongly_connected_components, topological_sort, condense, each twice; on half of the int-presentable "
+                    "cases without outside neighbours also the two *_edges functions without a backend argument",
+              frame_clauses=["the callback's own (persistent) neighbour lists unchanged after the call",
+                             "the caller's node list unchanged after the call",
+                             "same answer when the call is repeated"],
+              left_out="unhashable neighbours and NaN labels (membership in the node set is undefined for them), duplicate "
+                       "entries in the node iterable, neighbour functions that answer differently on a second call",
+              cpu_seconds=round(r3["cpu_ms"] / 1000, 1))
+    ctx.notes["round3"] = dict(r3)
     viol.sort(key=lambda v: (v[0], v[1].get("n", 0), len(str(v[1]))))  # smallest graph first
     kept = Counter()
     for name, case, detail in viol:
@@ -795,12 +832,16 @@ def run(ctx: Ctx):
                 "functions (backend=python) when the case has no outside neighbour. By relabelling symmetry the identity "
                 "node order over all labelled digraphs covers every node order of every digraph. Round 2: one case per "
                 "(ladder spec, presentation variant), graph regenerated from the spec, counted when non-trivial; one per "
-                "history session; distinct by construction; every call of a session is an evaluation.")
+                "history session; distinct by construction; every call of a session is an evaluation. Round 3: case = "
+                "(labels, neighbour lists as written incl. outside values and spellings, node order, containers, "
+                "lenient/strict), distinct by hash, counted when non-trivial; repeats of a call are not counted.")
     ctx.assumptions += [
         "the graph of a case is the one induced on the node set: neighbours outside the node set are not nodes and "
         "contribute no edges (the reading topological_sort itself uses)",
         "node iterables list every node once (duplicate entries in `nodes` are not generated)",
-        "*_edges variants are exercised only with endpoints in 0..n-1 and backend='python'",
+        "*_edges variants are exercised only with endpoints in 0..n-1; with backend='python' everywhere, and in round 3 also "
+        "through the default call (no backend argument: the Rust adapter when solvor._solvor_rust is importable in the tree "
+        "under check, else the Python fallback; the round-3 scope says which ran)",
         "the interpreter recursion limit is raised to (number of nodes + 1000) around every call on a ladder / history "
         "graph, as the module docstring of solvor.scc advises for long paths (Tarjan is recursive); the small scope runs "
         "at the default limit",
@@ -817,6 +858,8 @@ def replay(rec) -> int:
     use_repo()
     case = rec["case"]
     fn = case["fn"]
+    if case["api"] == "present":
+        return R3.replay(rec)
     if case["api"] == "history" or "ladder" in case or case["n"] > 60:
         return R2.replay(rec)
     if case["api"] == "edges":
